@@ -436,7 +436,10 @@ class RetryExecutor(CanCustomizeBind, Executor):
             # retrying on cancel is not allowed; if the delegate was cancelled by
             # someone other than us, make sure our future ends up cancelled too
             self._log.debug("Delegate was cancelled: %s", delegate_future)
+            # (cancel the future before forgetting the job, so that a
+            # concurrent cancel() finds either the job or a cancelled future)
             found_job.future._me_delegate_cancelled()
+            self._pop_job(found_job)
             return
 
         (should_retry, sleep_time) = eval_policy(found_job, self._log)
